@@ -41,14 +41,14 @@ const (
 	ONeg
 	OLt
 	OLe
-	OI2F    // int -> float
-	OF2I    // float -> int, truncation toward zero
-	OFloor  // float -> float
-	OAbs    // float or int
-	OSqrt   // float
-	OUF     // uninterpreted function on floats, name in .name
-	OIsNaN  // float -> bool
-	OIsInf  // float -> bool (either sign)
+	OI2F     // int -> float
+	OF2I     // float -> int, truncation toward zero
+	OFloor   // float -> float
+	OAbs     // float or int
+	OSqrt    // float
+	OUF      // uninterpreted function on floats, name in .name
+	OIsNaN   // float -> bool
+	OIsInf   // float -> bool (either sign)
 	OSignbit // float -> bool
 )
 
